@@ -28,12 +28,12 @@ Inductive xpin : Type :=
 | XNone
 | XUnhashable.            (* a list, a dict, ... *)
 
-(* is the rational an integer? *)
-Definition q_integral (q : Q) : bool := (Qnum q mod Zpos (Qden q) =? 0).
+(* is the rational an integer? (decided on the reduced fraction) *)
+Definition q_integral (q : Q) : bool := (Zpos (Qden (Qred q)) =? 1).
 
 Definition float_key (q : Q) : pin :=
-  if q_integral q then PinI (Qnum q / Zpos (Qden q))
-  else let r := Qred q in PinS [-1; Qnum r; Zpos (Qden r)].
+  let r := Qred q in
+  if q_integral q then PinI (Qnum r) else PinS [-1; Qnum r; Zpos (Qden r)].
 
 Definition none_key : pin := PinS [-2].
 
